@@ -26,7 +26,13 @@ MANIFEST = dict(
          "executed against the real cbuf.c (assertions+ASan and shipped flavour) on a deterministic core of op "
          "histories plus random ones, and the real code is also compared op by op with the FIFO specification "
          "(with its history of replayable bytes), which yields the failing history as replay; every public call "
-         "is checked for the locking discipline.",
+         "is checked for the locking discipline.  The two-lock protocol of cbuf_copy/cbuf_move is proved "
+         "deadlock-free for any threads, calls, directions and schedules (ordered acquisition; the unordered "
+         "protocol deadlocks: witness); on the real code every two-buffer call must take the two mutexes in the "
+         "same order as every earlier one, and two real threads copy and move in opposite directions under a "
+         "watchdog (no deadlock, no byte lost or duplicated).  alloc-size/minsize/maxsize are proved constants "
+         "of the buffer; every additive int statement of cbuf.c (list regenerated from the source) is "
+         "classified by a bound class proved safe for max <= INT_MAX/2.",
     design_ref="DESIGN.md section 5 C13",
     note="Lean 4.33 kernel; axioms propext/Classical.choice/Quot.sound at most (audited per theorem every run); "
          "hand-written model tied to cbuf.c by differential execution of the real source built from /repo's "
@@ -244,7 +250,13 @@ def run(ctx):
     ok1 = ctx.cc(exe_dbg, [os.path.join(HARNESS, "cbuf_harness.c")], san=True, assertions=True)
     ok2 = ctx.cc(exe_rel, [os.path.join(HARNESS, "cbuf_harness.c")], san=True, assertions=False)
     cov = {"evaluations": 0, "distinct_nontrivial": 0, "samples": [],
-           "rule": "FIRST a deterministic core, identical at every seed (blocks `core:*` of the distribution): all "
+           "rule": "FIRST a deterministic core, identical at every seed (blocks `core:*` of the distribution): "
+                   "descriptor calls whose source/sink stops exactly at (and one byte before/after) every chunk "
+                   "boundary of the copy loop after a partial transfer, at every wrap position, with EAGAIN / EIO / "
+                   "EPIPE / EOF behind it (requests that cross the array end once and several times); every call "
+                   "that takes a length with n = used-1, used, used+1, 2*used+3, -1 (replay side: relative to the "
+                   "replayable bytes) at every wrap position and fill level, two-buffer calls in both directions "
+                   "between the same buffers; all "
                    "sequences of length <= 4 over a 9-op alphabet on a min=2,max=5 buffer per mode; every public "
                    "operation with boundary arguments (lines -1/0/1/many, lengths around every line length, "
                    "descriptor capacities 0.., short reads 0..request, EOF/EAGAIN, EINTR before every read/write) x "
@@ -261,7 +273,10 @@ def run(ctx):
                    "with boundary-biased lengths (free-1, free, free+1, size, "
                    "size+1, 2*size+3), all three overwrite modes, buffer shapes tiny/min=max/chunk-growth/"
                    "production(64,131072); non-trivial = the sequence reached a buffer growth or an overwrite "
-                   "(ndropped>0); distinct = distinct op-sequence text"}
+                   "(ndropped>0); distinct = distinct op-sequence text.  LAST the lock-order stage: two real "
+                   "threads, 3000 iterations each (thorough: 60000) of write / copy or move to the other buffer / "
+                   "read on two NO_DROP buffers in opposite directions, rendezvous after the first lock of every "
+                   "two-lock call, watchdog"}
     if ok1 and ok2:
         import subprocess
         flavours = []
@@ -331,6 +346,8 @@ def run(ctx):
                      "memcpy/memmove/realloc behave per ISO C; realloc never fails",
                      "pthread mutexes are mutually exclusive; every public function of cbuf.c is one critical "
                      "section of the buffer's mutex (checked on every call the harness makes, not proved of the C text)",
+                     "cbuf_copy / cbuf_move take their two mutexes in one fixed total order (checked on every call of "
+                     "every history and by the two-thread run; LockOrder.lean proves that this excludes deadlock)",
                      "growth policy of cbuf_grow: any choice that covers the request or reaches the maximum "
                      "(Admissible); the choices of the code under test are observed, not assumed"],
         trusted_base=["Lean 4.33 kernel", "axioms: propext, Classical.choice, Quot.sound at most (audited per theorem)",
